@@ -14,7 +14,8 @@ class C21(Prop):
   quick_examples = 400
   thorough_examples = 5000
   rule = ("Hypothesis-generated histories on a decorated chart hosted on an instrumented "
-          "HsmWithQueues with live_spy and/or live_trace on and harness callbacks registered, "
+          "HsmWithQueues with live_spy and/or live_trace on and harness callbacks registered (in half of the cases "
+          "the spy callback reacts to entry/exit lines by scribbling on the chart), "
           "under a generated clock substituted for datetime.now inside miros.hsm: strictly "
           "increasing, coarse (advances every 7th or 40th reading, so several steps share a "
           "timestamp) or constant. Oracle: the live-spy callback stream equals the concatenation "
@@ -32,8 +33,8 @@ class C21(Prop):
   def strategy(self, tier):
     return st.tuples(spytrace.history(tier), st.sampled_from(CLOCKS),
                      st.sampled_from([(True, True), (True, False), (False, True)]),
-                     st.sampled_from(["queued", "queued", "ao"])).map(
-      lambda t: dict(t[0], clock=t[1], live=list(t[2]), host=t[3]))
+                     st.sampled_from(["queued", "queued", "ao"]), st.booleans()).map(
+      lambda t: dict(t[0], clock=t[1], live=list(t[2]), host=t[3], reactive=t[4]))
 
   def check(self, case, stats):
     if case.get("host") == "ao":
@@ -58,7 +59,7 @@ class C21(Prop):
       except PropertyViolation as v:
         box["v"] = v
     try:
-      s.run(body)
+      detsched.guarded_run(s, body)
     except (detsched.Deadlock, detsched.StepLimit) as e:
       raise PropertyViolation("no quiescence with live output on an active object: %s" % e, "C21:liveness")
     if "v" in box:
@@ -69,7 +70,8 @@ class C21(Prop):
 
   def check_run(self, case, stats, host):
     live_spy, live_trace = case["live"]
-    run = spytrace.Run(case, live_spy=live_spy, live_trace=live_trace, clock=case["clock"], host=host)
+    run = spytrace.Run(case, live_spy=live_spy, live_trace=live_trace, clock=case["clock"], host=host,
+                       reactive=bool(case.get("reactive")) and host is None)
     classes = ["clock_" + case["clock"], "host_" + (host or "queued")]
     try:
       try:
